@@ -327,6 +327,21 @@ func lzmaWCases(r *core.Run, prop string) []LZWCase {
 			}
 		}
 	}
+	// dictionary capacities that are not powers of two (the 32-bit header field holds any value):
+	// a repeat whose only source lies just inside the capacity makes the header truthful only if
+	// it announces at least that capacity
+	for _, dc := range []int{4097, 5000, 6145, 7000, 15000, 30000, 70000, 100000, 120000, 1<<20 + 1} {
+		for mt := 0; mt < 2; mt++ {
+			if mt == 1 && dc > 70000 {
+				continue
+			}
+			for _, mo := range modes(2*dc + 420) {
+				c := mo
+				c.DictCap, c.Matcher = dc, mt
+				add(LZWCase{Cfg: c, Shape: []Seg{{K: "R", Seed: 14, N: dc - 40}, {K: "K", N: dc - 40}, {K: "T", Seed: 14, N: 500}}})
+			}
+		}
+	}
 	// writer dictionary above the reader's default 8 MiB with a repeat farther back than that
 	add(LZWCase{Cfg: LZCfg{DictCap: 12 << 20}, Shape: []Seg{{K: "T", Seed: 9, N: 3000}, {K: "R", Seed: 9, N: 8<<20 + 70000}, {K: "K", N: 3000}}})
 	if prop == "C07" {
